@@ -69,6 +69,59 @@ def z_lemmas(ctx, versions):
                       rx.union([z3.Re('.'), z3.Re('...')]), broken_b=z3.Re('.'), uniform=uni)
 
 
+def redos_lemmas(ctx, versions=((3, 6), (3, 10))):
+    """T9: in the tokenizer's patterns no repetition body r is ambiguous in the sense r . r+ intersects r (a string
+    that is one iteration and also several): that ambiguity is what makes a backtracking matcher take exponential
+    time on a failing match (long digit runs, long comments ...), i.e. the tokenizer would not terminate in practice"""
+    from parso.python import tokenize as PT
+    seen = set()
+    pats = [(PT.fstring_string_single_line, 'fstring_string_single_line'), (PT.fstring_string_multi_line, 'fstring_string_multi_line'),
+            (PT.fstring_format_spec_single_line, 'fstring_format_spec_single_line'), (PT.fstring_format_spec_multi_line, 'fstring_format_spec_multi_line')]
+    for v in versions:
+        tc = PT._get_token_collection(v)
+        pats.append((tc.pseudo_token, 'PseudoToken %d.%d' % v))
+        for k, ep in sorted(tc.endpats.items()):
+            if k in ("'", '"', "'''", '"""'):
+                pats.append((ep, 'endpat %r %d.%d' % ((k,) + v)))
+    import time
+    for pat, name in pats:
+        if pat.pattern in seen:
+            continue
+        seen.add(pat.pattern)
+        tr = rx.Translator(pat.flags)
+        bad = []
+        unknown = []
+        t0 = time.time()
+        n = 0
+        for where, body in rx.unbounded_repeats(list(rx.parse(pat))):
+            if rx.has_lookaround(body) or rx._has_at(body):
+                continue
+            r = tr.seq(body)
+            n += 1
+            res, m, dt, _ = rx.check([z3.InRe(rx.W, z3.Intersect(z3.Concat(r, z3.Plus(r)), r)), z3.Length(rx.W) > 0], 20000)
+            if res == 'sat':
+                bad.append((where, rx.witness(m)))
+            elif res != 'unsat':
+                unknown.append(where)
+        dt = time.time() - t0
+        if bad:
+            w = bad[0][1]
+            path = ctx.write_replay('T9-' + name, lemmas.replay_source('t9_backtracking', (pat.pattern, pat.flags, w)))
+            ok, out = lemmas.run_replay(path)
+            if ok:
+                ctx.add('T9-unambiguous-repetition:' + name, 'z3', 'violated', dt, detail='repetition %s: %r is one iteration and several' % bad[0])
+                ctx.violation('T9-unambiguous-repetition:' + name, path, 'ambiguous repetition body (witness %r): matching time doubles per repetition: %s' % (w, out[-200:]))
+            else:
+                ctx.add('T9-unambiguous-repetition:' + name, 'z3', 'inconclusive', dt,
+                        detail='ambiguous repetition body (witness %r) but no measurable blow-up: %s' % (w, out[-120:]))
+        elif unknown:
+            ctx.add('T9-unambiguous-repetition:' + name, 'z3', 'inconclusive', dt, detail='z3 unknown at %r' % unknown[:3])
+        else:
+            ctx.add('T9-unambiguous-repetition:' + name, 'z3', 'holds', dt, nonvacuous=n > 0, kind='z3-regex-lemma',
+                    detail='%d unbounded repetitions, none has a body r with (r r+) intersecting r' % n,
+                    bound='strings of unbounded length; necessary condition for exponential backtracking only')
+
+
 def conditions(ctx, clauses='g1,g2,g3,g4,g5', focus='C09'):
     """focus: which property's budget is used (C09 = the tokenizer property, gets the most)"""
     env = {'VP_CLAUSES': clauses}
@@ -102,7 +155,7 @@ def conditions(ctx, clauses='g1,g2,g3,g4,g5', focus='C09'):
     if q:
         n = 6 if focus == 'C09' else 3
         start = (ctx.seed * n) % len(holes)
-        holes = sorted(set(([0, 24, 25, 26, 27] if focus == 'C09' else []) + [holes[(start + i * 3) % len(holes)] for i in range(n - 3)]))
+        holes = sorted(set(([0, 1, 24, 25, 26, 27, 28, 29, 30, 31, 32, 33] if focus == 'C09' else []) + [holes[(start + i * 3) % len(holes)] for i in range(n - 3)]))
     for k in holes:
         pre, post = TOK.HOLES[k]
         for vi in ([4] if q else [0, 4]):
@@ -128,6 +181,8 @@ def unit_conditions(ctx):
                      symbolic='prefix string, line, column, first-leaf flag'))
     C.append(xh.Cond(U, 'split_name', timeout=200 if q else 1200, path_timeout=30, extra_pre=['len(tok) <= 2'] if q else [],
                      bound='name-like token len<=%d over all of Unicode' % (2 if q else 3), symbolic='token text, column, prefix'))
+    C.append(xh.Cond(U, 'prefix_start_after_first_indent_error', timeout=150, path_timeout=30,
+                     bound='leading zero-width indentation error leaf, prefix of length <=3 over all of Unicode', symbolic='prefix, token type'))
     C.append(xh.Cond(U, 'close_fstring', timeout=150 if q else 900, path_timeout=30, extra_pre=['len(rest) <= 2'] if q else [],
                      bound='rest of line len<=%d over all of Unicode, 4 quote kinds' % (2 if q else 3),
                      symbolic='rest, column, pending prefix'))
@@ -150,4 +205,5 @@ def run(ctx):
     ctx.not_claimed('fully symbolic texts longer than the stated lengths; holes wider than stated; f-string nesting '
                     'beyond the listed skeletons')
     z_lemmas(ctx, VERS)
+    redos_lemmas(ctx)
     xh.run_conditions(ctx, unit_conditions(ctx) + conditions(ctx))
